@@ -336,6 +336,27 @@ C25Step(m, e) ==
                  THEN [ok |-> FALSE, why |-> "next_send_number_lost_updates", sig |-> "counter:" \o e.pmodel, m |-> m]
             ELSE [ok |-> TRUE, why |-> "", sig |-> "", m |-> m]
 
+\* ---- C15 (the socket reader frames the byte stream) -----------------------------------------------------
+\* Frames{sent, firstbad, kind, delivered, st}: the counterparty wrote the messages `sent` (length and hash of each)
+\* in some chunking; message number firstbad (0 = none) has a corrupt preamble of the given kind; `delivered` is
+\* what the real reader thread handed to the session, st the session state afterwards.
+C15Step(m, e) ==
+    IF e.e # "Frames" THEN [ok |-> TRUE, why |-> "", sig |-> "", m |-> m]
+    ELSE LET want == IF e.firstbad = 0 THEN e.sent ELSE SubSeq(e.sent, 1, e.firstbad - 1)
+             n == Len(e.delivered)
+             samePrefix == \A i \in 1..Min2(n, Len(want)) : e.delivered[i] = want[i]
+         IN IF ~samePrefix THEN [ok |-> FALSE, why |-> "delivered_message_differs_from_sent",
+                                 sig |-> "differs:" \o (IF e.firstbad = 0 THEN "valid_stream" ELSE e.kind), m |-> m]
+            ELSE IF n < Len(want) THEN [ok |-> FALSE, why |-> "valid_message_not_delivered",
+                                        sig |-> "missing:" \o (IF e.firstbad = 0 THEN "valid_stream" ELSE e.kind), m |-> m]
+            ELSE IF n > Len(want) THEN [ok |-> FALSE, why |-> "message_handed_on_after_corrupt_preamble",
+                                        sig |-> "handed_on:" \o e.kind, m |-> m]
+            ELSE IF e.firstbad # 0 /\ e.st # 2 THEN [ok |-> FALSE, why |-> "reader_did_not_stop_on_corrupt_preamble",
+                                                     sig |-> "not_stopped:" \o e.kind, m |-> m]
+            ELSE IF e.firstbad = 0 /\ e.st = 2 THEN [ok |-> FALSE, why |-> "reader_stopped_on_valid_stream",
+                                                     sig |-> "stopped:valid_stream", m |-> m]
+            ELSE [ok |-> TRUE, why |-> "", sig |-> "", m |-> m]
+
 \* ---- bookkeeping common to all properties ---------------------------------------------------------
 RECURSIVE AddSent(_, _, _)
 AddSent(sent, out, i) ==
@@ -363,7 +384,8 @@ Book(m, e) ==
 MonStep(m, e) ==
     IF e.e = "Reset" THEN [ok |-> TRUE, why |-> "", sig |-> "", m |-> MsInit(e.cfg)]
     ELSE IF e.e = "New" THEN [ok |-> TRUE, why |-> "", sig |-> "", m |-> m]
-    ELSE LET r == CASE Prop(m) = "C16" -> C16Step(m, e)
+    ELSE LET r == CASE Prop(m) = "C15" -> C15Step(m, e)
+                    [] Prop(m) = "C16" -> C16Step(m, e)
                     [] Prop(m) = "C17" -> C17Step(m, e)
                     [] Prop(m) = "C18" -> C18Step(m, e)
                     [] Prop(m) = "C19" -> C19Step(m, e)
@@ -372,6 +394,8 @@ MonStep(m, e) ==
                     [] Prop(m) = "C25" -> C25Step(m, e)
                     [] Prop(m) = "C22" -> C22Step(m, e)
                     [] Prop(m) = "C23" -> C23Step(m, e)
-                    [] OTHER -> [ok |-> TRUE, why |-> "", sig |-> "", m |-> m]
+                    [] Prop(m) = "none" -> [ok |-> TRUE, why |-> "", sig |-> "", m |-> m]
+                    \* a property without a monitor must never look like a pass
+                    [] OTHER -> [ok |-> FALSE, why |-> "no_monitor_for_property", sig |-> "no_monitor", m |-> m]
          IN [ok |-> r.ok, why |-> r.why, sig |-> r.sig, m |-> Book(r.m, e)]
 =============================================================================
